@@ -1285,7 +1285,8 @@ def rule_t_mover(ctx):
 
 
 def rule_t_free(ctx):
-    R = RuleResult("T-free", "a removal that hands an old-table element back to the caller frees the old table when that was its last element")
+    R = RuleResult("T-free", "a removal that hands an old-table element back to the caller frees the old table when that was its last element; the split "
+                   "table's removals that do not (erase, replace_bucket_with) are reached only from retain and replace_entry_with")
     for body, c, role, recv in hb_calls(ctx):
         if c.tname != HBT + "remove" or role != OLD or body.path in movers(ctx):
             continue
@@ -1310,6 +1311,55 @@ def rule_t_free(ctx):
                "after removing an element from the old table the function can return (path %s) without testing whether the old table "
                "is now empty and freeing it" % w)
     R.floor(1, "returning removals from OLD")
+    # the removals that do NOT free an emptied old table (the split table's `erase` and `replace_bucket_with`) are for the two operations the
+    # property names as leaving it to the next key-adding call: `retain` and `replace_entry_with`.  Every other public operation that takes an
+    # element out (remove, take, entry removal, the draining iterators' step and destructor) must go through the freeing `remove`.
+    T = ctx.facts.types
+    S_ = ctx.roles.S
+    nonfree = {}
+    for body, c, role, recv in hb_calls(ctx):
+        if role == OLD and c.tname in (HBT + "erase", HBT + "replace_bucket_with", HBT + "erase_no_drop") and "self_ty" in ctx.facts.closure_parent(body).raw:
+            own = ctx.facts.closure_parent(body)
+            if T[own.raw["self_ty"]].get("adt") == S_ and own.path not in movers(ctx):
+                nonfree[own.path] = c.tname
+    if len(nonfree) < 2:
+        R.anchor("non-freeing removals", "expected the split table's erase and replace_bucket_with, found %s" % sorted(nonfree))
+    rev = {}
+    for a, bs in ctx.call_graph().items():
+        for b_ in bs:
+            rev.setdefault(b_, set()).add(a)
+    ALLOWED = ("retain", "replace_entry_with")
+    nsite = 0
+    for nf, what in sorted(nonfree.items()):
+        tops, seen, work = set(), set(), [nf]
+        while work:
+            x = work.pop()
+            for y in rev.get(x, ()):
+                if y in seen:
+                    continue
+                seen.add(y)
+                by = ctx.facts.bodies.get(y)
+                if by is None:
+                    continue
+                oy = ctx.facts.closure_parent(by)
+                if by.kind == "Closure":
+                    work.append(y)
+                    continue
+                if oy.raw.get("exported") or oy.raw.get("trait") or (oy.raw.get("vis") == "pub"):
+                    tops.add(oy.path)
+                else:
+                    work.append(y)
+        for tp in sorted(tops):
+            nsite += 1
+            name = ctx.facts.bodies[tp].name
+            ok = name in ALLOWED
+            R.inst(fn=tp, reaches=nf, verdict="ok: documented not to free" if ok else "VIOLATION")
+            if not ok:
+                R.viol("%s:non-freeing:%s" % (tp, nf.rsplit("::", 1)[-1]), ctx.facts.bodies[tp].where(Loc(0, 0)),
+                       "%s takes elements out through %s (%s), which never frees an old table it has emptied; only retain and replace_entry_with may leave "
+                       "that to the next key-adding call — a removal must go through the split table's `remove`" % (tp, nf, what))
+    if nsite < 2:
+        R.anchor("non-freeing callers", "expected retain and replace_entry_with as callers of the non-freeing removals, found %d" % nsite)
     return R
 
 
